@@ -20,6 +20,12 @@
                        rest is M-free on exit) holds by construction; cut_function: a private function that returns the
                        collected parts and the rest
   guard_views(..)      boolean facts implied by the guards of an effect (incl. `Option::filter(p)` being Some => p)
+  option_fn_guards(..) the branch decisions under which a private Option/Result-returning function (literal Some / None at
+                       every return, or `cond.then(f)`) answers Some resp. None, in the caller's terms
+  origins(..)          statement-level provenance; follows a value into the private function that hands it out (plain result,
+                       `(x as Some).0` payload, the closure of `cond.then(..)`)
+  field_mutations(..), whole_ref_mutations(..)   every way a field (by name; skip_next: except on into a sub-field) / a
+                       `&mut` borrow as a whole can be changed in place by a function
 """
 from .lib.mir import op_place
 from .lib.value import Slicer, subst, walk, canon, _phi, _err_like
@@ -32,6 +38,7 @@ from .lib import iters
 LEAF = ('const', 'param', 'fnitem', 'constitem', 'unknown', 'closure_env', 'upvar')
 OPT, RES = 'std::option::Option::<T>::', 'std::result::Result::<T, E>::'
 OKISH = {'Continue', 'Ok', 'Some'}
+BOOL_THEN = 'core::bool::<impl bool>::then'
 
 
 def sym_slicer(sl):
@@ -59,6 +66,11 @@ def nf(sl, v, keep=(), d=0):
         return ('agg', v[1], v[2], tuple((n, nf(sl, x, keep, d)) for n, x in v[3]))
     out = tuple(nf(sl, x, keep, d) if isinstance(x, tuple) else x for x in v)
     if k == 'unwrap':
+        t = out[1]
+        if t[0] == 'call' and t[1] == BOOL_THEN and len(t[2]) == 2:      # the payload of `cond.then(f)` is what f returns
+            r = sl.apply_closure(t[2][1], ())
+            if r is not None and not _diverged(r):
+                return nf(sl, r, keep, d + 1)
         r = sl.mk_unwrap(out[1], 1)
         if r != out and r[0] != 'unwrap':
             return nf(sl, r, keep, d + 1)
@@ -469,6 +481,45 @@ def guard_views(E, e):
     return out
 
 
+def option_fn_guards(sl, v):
+    """v: the call of a private workspace function that returns an Option / Result built as a literal Some / Ok / None / Err
+    at every return.  -> (some, none): for every Some/Ok return resp. None/Err return the list of ALL branch decisions that
+    dominate it, each as [(value in the caller's terms, outcome)] (bool: every view of the tested value; anything else:
+    one opaque entry).  None when v is not such a call."""
+    v = strip(v)
+
+    def then_guards(t):
+        """`cond.then(f)` is Some exactly when cond is true"""
+        c, oc = strip(t[2][0]), True
+        while c[0] == 'un' and c[1] == 'Not':
+            c, oc = strip(c[2]), not oc
+        return [[[(c, oc)]]], [[[(c, not oc)]]]
+    if v[0] == 'call' and v[1] == BOOL_THEN and len(v[2]) == 2:
+        return then_guards(v)
+    g = sl.prog.fns.get(v[1]) if v[0] == 'call' and len(v) == 4 else None
+    if g is None or g.kind == 'Closure' or g.vis == 'pub' or g.partial_defs(0) or not g.ret.startswith(('std::option::Option<', 'std::result::Result<')):
+        return None
+    m = {(g.path, i): a for i, a in enumerate(v[2])}
+    some, none = [], []
+    ds = g.whole_defs(0)
+    if len(ds) == 1 and ds[0][0] == 'call' and not ds[0][3].indirect and ds[0][3].name == BOOL_THEN and not conditions(g, ds[0][1], sl):
+        t = strip(subst(sl.local(g, 0), m, sl))
+        if t[0] == 'call' and t[1] == BOOL_THEN and len(t[2]) == 2:
+            return then_guards(t)
+    for d in ds:
+        rv = d[3] if d[0] == 'stmt' else None
+        if rv is None or rv['r'] != 'agg' or rv.get('adt') not in ('std::option::Option', 'std::result::Result'):
+            return None
+        cds = []
+        for cd in conditions(g, d[1], sl):
+            if cd.kind == 'bool':
+                cds.append([(subst(x, m, sl), oc) for x, oc in cd.views()])
+            else:
+                cds.append([(('unknown', 'decision'), None)])
+        (none if rv.get('variant') in ('None', 'Err') else some).append(cds)
+    return some, none
+
+
 # lazy adapters (besides iters.LAZY_WITH_CLOSURE) whose closure / inner iterator runs only when the result is pulled
 LAZY_MORE = {iters.IT + 'flat_map', iters.IT + 'flatten', iters.IT + 'zip', iters.IT + 'chain', iters.IT + 'enumerate', iters.IT + 'peekable',
              iters.IT + 'skip', iters.IT + 'take', iters.IT + 'step_by', iters.IT + 'fuse', iters.IT + 'rev', iters.IT + 'cycle', iters.IT + 'by_ref'}
@@ -714,6 +765,14 @@ VIEW_CALLS = ('std::ops::Deref::deref', 'std::vec::Vec::<T, A>::as_slice', 'std:
               'std::boxed::Box::<T>::new')
 
 
+def peel_views(v):
+    """the value behind `&v`, `v.as_slice()`, `v.as_ref()`, `Box::new(v)` (the same bytes)"""
+    v = strip(v)
+    while v[0] == 'call' and len(v[2]) == 1 and v[1] in VIEW_CALLS:
+        v = strip(v[2][0])
+    return v
+
+
 WHY = []       # why the last origins() calls gave up ('edited: ..' = a definite in-place modification)
 
 
@@ -739,7 +798,10 @@ def origins(prog, fn, op, depth=0):
     if pl is None or depth > 12:
         return None
     local = pl[0]
-    if any(not (p == '*' or p == '.0') for p in pl[1:]):
+    # `(x as Some).0` / `(x as Ok).0`: the payload of an Option / Result a private function built (followed into it below)
+    proj = [p for p in pl[1:] if p != '*']
+    payload = proj[:2] in (['@Some', '.0'], ['@Ok', '.0'])
+    if any(p != '.0' for p in (proj[2:] if payload else proj)):
         return None
     if not _clean_local(fn, local):
         WHY.append('edited: %s of %s is re-assigned, written in part or mutably borrowed between its definition and its use' % (fn.local_name(local) or '_%d' % local, fn.path.split('::')[-1]))
@@ -758,10 +820,43 @@ def origins(prog, fn, op, depth=0):
             out.extend(r)
         return out or None
     d = fn.whole_defs(local)[0]
+    if payload:
+        # only understood for the result of a private function every return of which is a literal Some(x) / Ok(x) / None / Err(..)
+        g = prog.fns.get(d[3].name) if d[0] == 'call' and not d[3].indirect else None
+        if g is None or g.kind == 'Closure' or g.vis == 'pub' or g.partial_defs(0):
+            return None
+        out = []
+        ds2 = g.whole_defs(0)
+        if len(ds2) == 1 and ds2[0][0] == 'call' and not ds2[0][3].indirect and ds2[0][3].name == BOOL_THEN and len(ds2[0][3].args) == 2:
+            # `cond.then(|| x)`: the payload is what the closure returns
+            cpl = op_place(ds2[0][3].args[1])
+            cds = g.whole_defs(cpl[0]) if cpl and len(cpl) == 1 and _clean_local(g, cpl[0]) and not (1 <= cpl[0] <= g.argc) else []
+            rv = cds[0][3] if len(cds) == 1 and cds[0][0] == 'stmt' else None
+            cf = prog.fns.get(rv.get('def')) if rv is not None and rv['r'] == 'agg' and rv.get('kind') == 'closure' else None
+            if cf is None or len(cf.whole_defs(0)) != 1:
+                return None
+            return origins(prog, cf, {'m': [0]}, depth + 1)
+        for d2 in ds2:
+            rv = d2[3] if d2[0] == 'stmt' else None
+            if rv is None or rv['r'] != 'agg' or rv.get('adt') not in ('std::option::Option', 'std::result::Result'):
+                return None
+            if rv.get('variant') in ('None', 'Err'):
+                continue
+            r = origins(prog, g, rv['ops'][0], depth + 1) if len(rv['ops']) == 1 else None
+            if r is None:
+                return None
+            out.extend(r)
+        return out or None
     if d[0] == 'call':
         c = d[3]
         if c.is_(*VIEW_CALLS) and c.args:
             return origins(prog, fn, c.args[0], depth + 1)
+        # a private function that hands the value out: what it returns
+        g = prog.fns.get(c.name) if not c.indirect else None
+        if g is not None and g.kind != 'Closure' and g.vis != 'pub' and len(g.whole_defs(0)) == 1:
+            r = origins(prog, g, {'m': [0]}, depth + 1)
+            if r:
+                return r
         return [c]
     if d[0] != 'stmt':
         return None
@@ -777,7 +872,7 @@ def origins(prog, fn, op, depth=0):
     return None
 
 
-def field_mutations(prog, fn, field):
+def field_mutations(prog, fn, field, skip_next=None):
     """every statement-level way in which fn can change `<anything>.field` in place:
     [(kind, fn, bb, Call|None, arg index|None)] with kind
       'call'    a `&mut <..>.field` borrow (reborrows and captures by a closure followed) handed to a call as argument #idx
@@ -786,6 +881,11 @@ def field_mutations(prog, fn, field):
       'escape'  the `&mut` borrow is stored or used in any other way"""
     proj = '.' + field
     out = []
+
+    def has(place):
+        """the place goes through the field (with skip_next: .. and not on into that sub-field, which is scanned on its own)"""
+        ps = [p for p in place[1:] if p != '*']
+        return any(p == proj and not (skip_next is not None and ps[i + 1:i + 2] == ['.' + skip_next]) for i, p in enumerate(ps))
 
     def follow(g, local, depth=0):
         if depth > 8:
@@ -838,25 +938,64 @@ def field_mutations(prog, fn, field):
         for s in b['s']:
             if s[0] != '=':
                 continue
-            if proj in s[1][1:]:
+            if has(s[1]):
                 out.append(('assign', fn, bi, None, None))
             rv = s[2]
-            if rv['r'] in ('ref', 'rawptr') and proj in rv['p'][1:] and (rv['r'] == 'rawptr' or rv['mut']):
+            if rv['r'] in ('ref', 'rawptr') and has(rv['p']) and (rv['r'] == 'rawptr' or rv['mut']):
                 # a borrow of the field itself or of something inside it
                 if len(s[1]) == 1:
                     follow(fn, s[1][0])
                 else:
                     out.append(('escape', fn, bi, None, None))
             for pl, how in _rv_places(rv):
-                if how == 'm' and proj in pl[1:]:
+                if how == 'm' and has(pl):
                     out.append(('move', fn, bi, None, None))
         t = b['t']
         if t['t'] == 'call':
-            if proj in t['dest'][1:]:
+            if has(t['dest']):
                 out.append(('assign', fn, bi, None, None))
             for a in t.get('args', []):
-                if 'm' in a and proj in a['m'][1:]:
+                if 'm' in a and has(a['m']):
                     out.append(('move', fn, bi, None, None))
+    return out
+
+
+def whole_ref_mutations(prog, fn, local, trusted):
+    """what fn does with the `&mut T` it holds in `local` AS A WHOLE (uses that go on into a field of T are scanned by
+    field_mutations): assigning through it, handing it (reborrows followed) to a function that is not `trusted`, storing it
+    -> [description]"""
+    out = []
+
+    def follow(x, depth=0):
+        if depth > 6:
+            out.append('escape')
+            return
+        for bi, b in enumerate(fn.blocks):
+            for s in b['s']:
+                if s[0] == '=' and s[1][0] == x and len(s[1]) > 1 and not [p for p in s[1][1:] if p != '*']:
+                    out.append('assignment through the borrow')
+            t = b['t']
+            if t['t'] == 'call' and t['dest'][0] == x and len(t['dest']) > 1 and not [p for p in t['dest'][1:] if p != '*']:
+                out.append('assignment through the borrow')
+        for bi, kind, idx, how, pl in fn.uses_of(x):
+            if kind == 'drop' or [p for p in pl[1:] if p != '*']:
+                continue
+            if kind == 'arg':
+                c = fn.call_at(bi)
+                if c is None or c.indirect or not trusted(c):
+                    out.append((c.name or 'indirect call').split('::')[-1] if c is not None else 'call')
+            elif kind == 'stmt':
+                tgt = fn.blocks[bi]['s'][idx][1]
+                rv = fn.blocks[bi]['s'][idx][2]
+                if how == 'ref':
+                    continue
+                if how in ('refmut', 'm', 'c') and len(tgt) == 1 and rv['r'] in ('ref', 'use'):
+                    follow(tgt[0], depth + 1)
+                else:
+                    out.append('escape')
+            else:
+                out.append('escape')
+    follow(local)
     return out
 
 
